@@ -1822,6 +1822,10 @@ func (g *gen) equals(a, b *hframe) {
 
 func histSection(r *tx.Rng, w *tx.W, size int, opt map[string]string) {
 	g := &gen{r: r, w: w, size: size, opt: opt}
+	if opt["wit"] != "" {
+		g.witnesses()
+		return
+	}
 	if opt["newonly"] != "" {
 		for i := 0; i < 12; i++ {
 			g.genNew()
@@ -2401,4 +2405,22 @@ func (g *gen) writerFaults(src *hframe) {
 			g.w.Line("WF", tx.Int(src.id), kind, tx.Int(total), tx.Int(k), res, tx.Int(fw.accepted))
 		}
 	}
+}
+
+// witnesses replays the recorded (open) findings of this section deterministically, so that every run probes them.
+func (g *gen) witnesses() {
+	// KF-C06-fapply-fill: FilteredApply(x > 2, {Fn: 7, DstCol: "y"}) and a ColumnName copy on x = [1,2,3,4]
+	x := []int{1, 2, 3, 4}
+	g.w.Line("N", "0", "1", tx.HexS("x"), "I", "4", "i1", "i2", "i3", "i4", "O", "0", "E", "0")
+	base := g.finish(0, func() qframe.QFrame { return qframe.New(map[string]types.DataSlice{"x": x}) })
+	clauseToks := []string{"F", "0", tx.HexS("x"), "s" + tx.HexS(">"), "i2"}
+	cl := qframe.Filter{Column: "x", Comparator: ">", Arg: 2}
+	g.w.Line(append(append([]string{"O", "1", "0", "fapply"}, clauseToks...), "1", tx.HexS("y"), "-", "-", "c", "i7")...)
+	g.finish(1, func() qframe.QFrame { return base.qf.FilteredApply(cl, qframe.Instruction{Fn: 7, DstCol: "y"}) })
+	g.w.Line("CB", "1", "1", "-1")
+	g.w.Line(append(append([]string{"O", "2", "0", "fapply"}, clauseToks...), "1", tx.HexS("y"), "-", "-", "col", tx.HexS("x"))...)
+	g.finish(2, func() qframe.QFrame {
+		return base.qf.FilteredApply(cl, qframe.Instruction{Fn: types.ColumnName("x"), DstCol: "y"})
+	})
+	g.w.Line("CB", "2", "1", "-1")
 }
